@@ -39,7 +39,7 @@ type res struct {
 func main() {
 	names := am.S{"A", "B", "C", "D"}
 	reps := ` + fmt.Sprint(reps) + `
-	r := res{Schema: "all 4-state schemas with at most one Require and one After per state (Add of all four), and T + four Auto states with T removing none/one of them and none/one mutually Removing pair (Add T, Remove T, Set T), and every exclusive group of 2..4 of G1..G4 sharing one Remove/After slice (Add each in turn, Add all; second machine from the same schema value)", Group: "target-order", Kind: "determinism", Bound: reps, Exhausted: true}
+	r := res{Schema: "all 4-state schemas with at most one Require and one After per state (Add of all four), and T + four Auto states with T removing none/one of them and none/one mutually Removing pair (Add T, Remove T, Set T), and every exclusive group of 2..4 of G1..G4 sharing one Remove/After slice (Add each in turn, Add all; second machine from the same schema value), VerifyStates with a repeated name, and the active order / End handler order after a panicking final handler", Group: "target-order", Kind: "determinism", Bound: reps, Exhausted: true}
 	// every state requires / comes after none or one of the others
 	choice := func(code int, self int) am.S {
 		if code == 0 {
@@ -186,6 +186,51 @@ func main() {
 			} else if again != out {
 				r.Violation = fmt.Sprintf("group mask %04b of G1..G4 sharing one Remove/After slice: a second machine built from the same schema value gave [%s], the first [%s]", mask, again, out)
 			}
+		}
+	}
+	// fourth family: VerifyStates with a list that covers the schema but repeats a name:
+	// the state order (and with it Time, Index) is the order of first occurrence
+	for k := 0; k < reps && r.Violation == ""; k++ {
+		ctx, cancel := context.WithCancel(context.Background())
+		m := am.New(ctx, am.Schema{"A": {}, "B": {}, "C": {}, "D": {}, "E": {}, "F": {}}, &am.Opts{Id: "verif-c11"})
+		if err := m.VerifyStates(am.S{"F", "E", "D", "C", "B", "A", "F", am.StateException, "C"}); err != nil {
+			panic(err)
+		}
+		m.Add(am.S{"B", "D", "F"}, nil)
+		out := strings.Join(m.StateNames(), ",") + " " + fmt.Sprint(m.Time(nil)) + " " + strings.Join(m.ActiveStates(nil), ",")
+		cancel()
+		r.States++
+		if want := "F,E,D,C,B,A,Exception " + fmt.Sprint(am.Time{1, 0, 1, 0, 1, 0, 0}) + " B,D,F"; out != want {
+			r.Violation = fmt.Sprintf("VerifyStates{F,E,D,C,B,A,F,Exception,C}; Add{B,D,F} gave [%s] in run %d, expected [%s]", out, k+1, want)
+		}
+	}
+	// fifth family: the order of the active states after a fault in a final handler (it decides
+	// the Exit / End handler order of later transitions): A..E active, Add X whose XState panics,
+	// then Remove{A..E} with End handlers logging their order
+	first5 := ""
+	for k := 0; k < reps && r.Violation == ""; k++ {
+		ctx, cancel := context.WithCancel(context.Background())
+		m := am.New(ctx, am.Schema{"A": {}, "B": {}, "C": {}, "D": {}, "E": {}, "X": {}}, &am.Opts{Id: "verif-c11"})
+		var log []string
+		fin := map[string]am.HandlerFinal{"XState": func(e *am.Event) { panic("boom") }}
+		for _, n := range []string{"A", "B", "C", "D", "E"} {
+			n := n
+			fin[n+"End"] = func(e *am.Event) { log = append(log, n+"End") }
+		}
+		if _, err := m.HandlersBindMaps(nil, fin); err != nil {
+			panic(err)
+		}
+		m.Add(am.S{"E", "C", "A", "D", "B"}, nil)
+		m.Add1("X", nil)
+		out := strings.Join(m.ActiveStates(nil), ",") + " | "
+		m.Remove(am.S{"A", "B", "C", "D", "E"}, nil)
+		out += strings.Join(log, " ") + " | " + strings.Join(m.ActiveStates(nil), ",") + " " + fmt.Sprint(m.Time(nil))
+		cancel()
+		r.States++
+		if k == 0 {
+			first5 = out
+		} else if out != first5 {
+			r.Violation = fmt.Sprintf("A..E active, Add X (XState panics), Remove{A..E}: active order | End handler order | outcome was [%s] in run 1 and [%s] in run %d", first5, out, k+1)
 		}
 	}
 	json.NewEncoder(os.Stdout).Encode([]res{r})
